@@ -256,6 +256,24 @@ def run_property(pid, tier, rules_fn, explanation, not_decided, trusted_base=(),
         crash = "anchor not found: %s" % e
     for r in rules:
         r.finish()
+    # Second opinion before reporting: most rules are intraprocedural, so a guard or release that a refactoring moved into a new helper
+    # function would look like a violation. If anything is about to be reported, evaluate the rules once more on facts in which helper
+    # functions unknown to the rules are inlined into their callers (inline.py); report only what persists there.
+    inlined_note = None
+    if (crash or any(r.violations for r in rules)) and not os.environ.get("VERIF_NO_INLINE"):
+        try:
+            import inline
+            ctx2 = Ctx(tier, inline_helpers=True)
+            rules2 = rules_fn(ctx2)
+            for r in rules2:
+                r.finish()
+            helpers = ctx2.inlined_helpers()
+            if helpers and not any(r.violations for r in rules2):
+                inlined_note = {"decided_after_inlining": sorted(helpers), "why": "the first pass reported %s; with these helper functions spliced into their "
+                                "callers every rule is discharged" % sorted(set(v.full_key() for r in rules for v in r.violations) | ({"crash"} if crash else set()))[:6]}
+                rules, crash, ctx = rules2, None, ctx2
+        except AnchorError:
+            pass
     # checker self-validation on the fixture crate: fire on bad_*, silent on good_*
     if selftest_fn is not None and not os.environ.get("VERIF_NO_SELFTEST"):
         try:
@@ -321,6 +339,7 @@ def run_property(pid, tier, rules_fn, explanation, not_decided, trusted_base=(),
         "known_findings_matched": [v.full_key() for v, _ in known_hits],
         "selftest": ctx.selftest,
         "detector_selftest": detector,
+        "helper_inlining": inlined_note,
     }
     ev = {
         "property_id": pid,
@@ -385,22 +404,38 @@ def run_detector_selftest(pid):
 
 
 class Ctx:
-    def __init__(self, tier):
+    def __init__(self, tier, inline_helpers=False):
         self.tier = tier
         self._used = {}
         self.selftest = None
+        self._inline = inline_helpers
+        self._inlined = {}
+        self._helpers = {}
+
+    def _maybe_inline(self, key, f):
+        if not self._inline:
+            return f
+        if key not in self._inlined:
+            import inline
+            g, counts = inline.inline_all(f)
+            self._inlined[key] = g
+            self._helpers.update(counts)
+        return self._inlined[key]
+
+    def inlined_helpers(self):
+        return dict(self._helpers)
 
     @property
     def facts(self):
         f = load_facts("repo", "dev")
         self._used["dev"] = f
-        return f
+        return self._maybe_inline("dev", f)
 
     @property
     def facts_release(self):
         f = load_facts("repo", "release")
         self._used["release"] = f
-        return f
+        return self._maybe_inline("release", f)
 
     def all_profiles(self):
         """fact sets to run profile-sensitive rules on: dev always, release in thorough"""
